@@ -167,7 +167,13 @@ func (o *OutputCollector) EmitArrays(arrays []arrow.Array, numRows int64) error 
 		s = o.ProcessSchema
 	}
 	batch := array.NewRecordBatch(s, arrays, numRows)
-	return o.Emit(batch)
+	if err := o.Emit(batch); err != nil {
+		// The collector did not take the batch (e.g. a second data batch in
+		// one call); it was built here, so it is released here.
+		batch.Release()
+		return err
+	}
+	return nil
 }
 
 // EmitMap builds a 1-row RecordBatch from column name/value pairs using the
@@ -193,7 +199,13 @@ func (o *OutputCollector) EmitMap(data map[string][]interface{}) error {
 	for _, c := range cols {
 		c.Release()
 	}
-	return o.Emit(batch)
+	if err := o.Emit(batch); err != nil {
+		// The collector did not take the batch (e.g. a second data batch in
+		// one call); it was built here, so it is released here.
+		batch.Release()
+		return err
+	}
+	return nil
 }
 
 // Finish signals end-of-stream for producer streams.
